@@ -251,6 +251,18 @@ def runFrom (c : Cfg) : St → List Op → List Batch × St
 
 def run (c : Cfg) (ops : List Op) : List Batch × St := runFrom c {} ops
 
+/-- the events of an op sequence, in order -/
+def eventsOf : List Op → List Event
+  | [] => []
+  | .ev e :: ops => e :: eventsOf ops
+  | .swap :: ops => eventsOf ops
+
+/-- number of swaps (= index of the batch the next swap returns) -/
+def swapCount : List Op → Nat
+  | [] => 0
+  | .ev _ :: ops => swapCount ops
+  | .swap :: ops => swapCount ops + 1
+
 /-! ## specification side (what C14 demands), independent of the accumulator -/
 
 /-- the accepted events of each closed window (between two consecutive swaps), and the pending
